@@ -169,6 +169,18 @@ def rule_auth_value(ctx):
         pubs = sorted(pp for pp in prog.public_api() if root in prog.reachable_from([pp]) and not pp.endswith('::fmt'))
         allowed = {'unsync::cache::Cache::insert', 'sync::cache::Cache::insert'}
         ok = set(pubs) <= allowed
+        # what is stored must be a fresh entry built from this call's value (never an older entry put back)
+        if ext == 'std::collections::HashMap::insert':
+            b2 = prog.bodies[nid]
+            for bi2, t2 in b2.calls():
+                if prog.call_targets(b2, t2)[1] == ext and len(t2['args']) > 2:
+                    leaves = ctx.orig.of_operand(b2, t2['args'][2])
+                    fresh = any(l[0] in ('via', 'call') and str(l[1]).endswith('ValueEntry::new') for l in leaves)
+                    from_param = any(l[0] == 'param' and 'ValueEntry' in b2.local_ty(l[1])['s'] for l in leaves)
+                    r.instance(site=nid, stores_fresh_entry=fresh, stores_parameter_entry=from_param)
+                    if from_param or not fresh:
+                        r.violate(nid, 'map-insert-of-old-entry', 'HashMap::insert', '%s stores an entry into the map that is not the one built from this insert\'s value (an older entry is put back): '
+                                  'lookups return a value that is not the most recent insert' % nid, where=ctx.where(nid, t2.get('line')))
         r.instance(site=nid, primitive=ext, reachable_from=pubs, ok=ok)
         if not ok:
             r.violate(nid, 'map-insert-reachable', ext.split('::')[-1], 'the map-insert primitive %s in %s is reachable from %s' % (ext, nid, sorted(set(pubs) - allowed)),
@@ -347,4 +359,90 @@ def rule_unlink_both(ctx):
     if n < 6 and not r.violations:
         raise CheckFailure('MUST-unlink-both: only %d entry-bearing removal events analysed (expected >= 6)' % n)
     r.floor = (6, 'entry-bearing removal events')
+    return r
+
+
+def rule_impl_accessors(ctx):
+    r = RuleResult('IMPL-accessors', 'every implementation of the timestamp accessors reads / writes the store its name says: last_modified / set_last_modified use the '
+                   'write-order store (EntryInfo.last_modified, the write-order node), last_accessed / set_last_accessed the access-order store; the lookups '
+                   'call these accessors through a trait, so GUARD-live sees only their names')
+    prog, eff = ctx.prog, ctx.eff
+    WO = {'last_modified', 'write_order_q_node'}
+    AO = {'last_accessed', 'access_order_q_node'}
+    n = 0
+    for item in ('last_accessed', 'set_last_accessed', 'last_modified', 'set_last_modified'):
+        for tr in ('common::concurrent::AccessTime', 'unsync::AccessTime'):
+            for impl in prog.trait_impls.get(tr + '::' + item, []):
+                reach = prog.reachable_from([impl])
+                fields = set()
+                for x in reach:
+                    for e in eff.direct.get(x, ()):
+                        if e[0] in ('read', 'write') and e[2] in (WO | AO):
+                            fields.add(e[2])
+                want, other = (WO, AO) if 'modified' in item else (AO, WO)
+                # impls for the *other* queue's node type are dead (unreachable!/None): they touch neither store
+                n += 1
+                bad = fields & other
+                r.instance(impl=impl, touches=sorted(fields), ok=not bad)
+                if bad:
+                    r.violate(impl, 'accessor-crossed', ','.join(sorted(bad)), '%s touches %s: the %s time is taken from / stored to the wrong store, so ttl is measured from the last read (or tti from the last write)'
+                              % (impl, sorted(bad), 'last-modified' if 'modified' in item else 'last-accessed'), where=ctx.where(impl))
+    r.require_floor(8, 'accessor implementations')
+    return r
+
+
+def rule_must_expire(ctx):
+    r = RuleResult('MUST-expire', 'expiry scans run whenever their configuration says so and on nothing else: the sync maintenance run calls the expiry step iff has_expiry() || '
+                   'has_valid_after(); inside it the write-order scan runs iff ttl is set and the access-order scans iff tti is set or a watermark exists; the '
+                   'unsync expiry step runs the write-order scan iff ttl and the access-order scans iff tti -- independently of each other and of any counter')
+    prog = ctx.prog
+    R = get_roles(ctx)
+    n = 0
+
+    def conf_lits(p):
+        d = {}
+        for c, v in p.conds:
+            f = fmt(c)
+            if isinstance(c, tuple) and c[0] == 'call' and str(c[1]).endswith(('has_expiry', 'has_valid_after', 'is_write_order_queue_enabled')):
+                d[str(c[1]).split('::')[-1]] = v
+            if isinstance(c, tuple) and c[0] == 'cmp' and c[1] == 'eq' and any(isinstance(x, tuple) and x and x[0] == 'discr' for x in (c[2], c[3])):
+                for nm in ('time_to_live', 'time_to_idle'):
+                    if has_field(c, (nm,)):
+                        d[nm] = v
+        return d
+    # sync: maintenance run
+    for m in sorted(R.maintenance):
+        for p in _run(ctx, m, inline_depth=1, loop_visits=2, inline_pred=lambda n_, b, d: False):
+            d = conf_lits(p)
+            if 'has_expiry' not in d and 'has_valid_after' not in d:
+                continue
+            should = d.get('has_expiry') is True or d.get('has_valid_after') is True
+            called = any(e[0] == 'call' and str(e[1]).endswith('Inner::evict_expired') for e in p.events)
+            n += 1
+            r.instance(function=m, has_expiry=d.get('has_expiry'), has_valid_after=d.get('has_valid_after'), expiry_step_called=called)
+            if should != called:
+                r.violate(m, 'expiry-step-condition', 'called=%s' % called, 'a path of the maintenance run with has_expiry=%s / has_valid_after=%s %s the expiry step (other conditions: %s): expired or '
+                          'invalidated entries are not released in that run' % (d.get('has_expiry'), d.get('has_valid_after'), 'calls' if called else 'does not call',
+                                                                               [fmt(c)[:50] + '==' + str(v) for c, v in p.conds if 'has_' not in fmt(c)][:4]), where=ctx.where(m),
+                          expected='if self.has_expiry() || self.has_valid_after() { self.evict_expired(..) }')
+    # the expiry steps themselves
+    for nid, kind in (('sync::base_cache::Inner::evict_expired', 'sync'), ('unsync::cache::Cache::evict_expired', 'unsync')):
+        if nid not in prog.bodies:
+            continue
+        for p in _run(ctx, nid, inline_depth=2, loop_visits=2, inline_pred=lambda n_, b, d: False if 'remove_expired' in n_ else None):
+            d = conf_lits(p)
+            wo = sum(1 for e in p.events if e[0] == 'call' and str(e[1]).endswith('remove_expired_wo'))
+            ao = sum(1 for e in p.events if e[0] == 'call' and str(e[1]).endswith('remove_expired_ao'))
+            ttl = d.get('time_to_live', d.get('is_write_order_queue_enabled'))
+            tti = d.get('time_to_idle')
+            va = d.get('has_valid_after')
+            n += 1
+            want_wo = 1 if ttl else 0
+            want_ao = 3 if (tti or (kind == 'sync' and va)) else 0
+            ok = (ttl is None or wo == want_wo) and ((tti is None and va is None) or ao == want_ao)
+            r.instance(function=nid, ttl=ttl, tti=tti, watermark=va, write_order_scans=wo, access_order_scans=ao, ok=ok)
+            if not ok:
+                r.violate(nid, 'expiry-scan-condition', 'wo=%d,ao=%d' % (wo, ao), 'a path of %s with ttl=%s tti=%s watermark=%s runs %d write-order and %d access-order scans (expected %d and %d): '
+                          'entries expired by one timer are not purged when the other is also configured' % (nid, ttl, tti, va, wo, ao, want_wo, want_ao), where=ctx.where(nid))
+    r.require_floor(6, 'expiry paths')
     return r
